@@ -1,6 +1,8 @@
 module verifharness
 
-go 1.19
+go 1.22.0
+
+toolchain go1.23.5
 
 require (
 	github.com/kjk/lzma v0.0.0-20161016003348-3fd93898850d
@@ -10,7 +12,13 @@ require (
 )
 
 require (
+	golang.org/x/mod v0.22.0 // indirect
+	golang.org/x/sync v0.10.0 // indirect
+)
+
+require (
 	github.com/xi2/xz v0.0.0-20171230120015-48954b6210f8 // indirect
+	golang.org/x/tools v0.29.0
 	pault.ag/go/topsort v0.1.1 // indirect
 )
 
